@@ -43,7 +43,7 @@ def plan(tier, seed):
 
 
 def unit_timeout(tier):
-    return 90 if tier == "quick" else 480
+    return 45 if tier == "quick" else 480
 
 
 def floors(tier):
@@ -53,6 +53,7 @@ def floors(tier):
                          "purity_checks": n["direct"] * 4,
                          "idempotence_checks": n["direct"] * 2,
                          "dt_zero_tiny_or_negative_cases": n["direct"] * 2,
+                         "linear_in_state_programs": n["direct"] // 5,
                          "calls_via_runtime": n["runtime"] * 3,
                          "calls_via_transform": n["transform"] * 3,
                          "calls_via_fit": n["fit"] * 10}}
@@ -62,7 +63,10 @@ def setup_worker(ctx):
     monitors.install_python_hooks()
 
 
-def gen_defn(rng, kind):
+def gen_defn(rng, kind, i=0):
+    if kind == "direct" and i % 4 == 3:
+        return gen.linear_in_state_program(rng, n_state=(2, 4), n_control=(1, 3), n_calib=(0, 2), n_sensor=(0, 1),
+                                           n_reading=(1, 2), depth=1, n_shared=(0, 0))
     if kind == "direct":
         return gen.program(rng, n_state=(1, 5), n_control=(0, 3), n_calib=(0, 2), n_sensor=(0, 1),
                            depth=2 if rng.random() < 0.5 else 3)
@@ -77,7 +81,9 @@ def run_unit(unit, ctx):
     R = K.Result()
     rng = K.unit_rng(ID, ctx["seed"], unit)
     kind = unit["kind"]
-    defn = gen_defn(rng, kind)
+    defn = gen_defn(rng, kind, unit["i"])
+    if defn.get("family") == "linear_in_state":
+        R.stats.inc("linear_in_state_programs")
     fp = gen.fingerprint([defn, kind])
     R.fps_all.append(fp)
     if len(defn["control"]) >= 1 and len(defn["state"]) >= 2:
